@@ -24,7 +24,17 @@ func main() {
 	replayIdx := flag.Int64("replay-index", -1, "replay: case index")
 	procs := flag.Int("procs", 0, "GOMAXPROCS (0 = default)")
 	list := flag.Bool("list", false, "list monitors")
+	countDistinct := flag.String("count-distinct", "", "count the distinct 8-byte hashes in the distinct-*.bin files of a directory and exit")
 	flag.Parse()
+	if *countDistinct != "" {
+		n, err := core.CountDistinct(*countDistinct)
+		if err != nil {
+			fmt.Fprintln(os.Stderr, err)
+			os.Exit(3)
+		}
+		fmt.Println(n)
+		return
+	}
 	if *list {
 		for k := range mon.Monitors {
 			fmt.Println(k)
